@@ -45,7 +45,7 @@ def wname(w: Worker) -> str:
     return ("fallback" if w.fallback else "pydantic") + "+" + ("orjson" if w.orjson_on else "stdlib")
 
 
-PATHS = ["dumps", "dumps_compact", "model_request", "model_response"]
+PATHS = ["dumps", "dumps_compact", "dumps_after_pretty", "model_request", "model_response"]
 
 
 def check(case: Dict[str, Any]) -> Outcome:
@@ -63,6 +63,13 @@ def check(case: Dict[str, Any]) -> Outcome:
                     texts[t] = len(texts)
     tlist = list(texts)
     dec = [w.request({"op": "json_decode", "texts": tlist}) for w in ws]
+    # every encoding, sent as one NDJSON line through the stdio reader's framing, must come out as exactly one frame
+    from ..fuzz.targets import _stdio_lines
+
+    framed: Dict[str, Any] = {}
+    for t in tlist:
+        got_lines, err = _stdio_lines([(t + "\n").encode("utf-8")])
+        framed[t] = (got_lines, err)
     nt = 0
     for vi, v in enumerate(values):
         if is_nontrivial_json(v):
@@ -75,6 +82,10 @@ def check(case: Dict[str, Any]) -> Outcome:
                     continue
                 if "\n" in t or "\r" in t:
                     out.fail(f"raw-line-break-in-encoding:{p}", f"{wname(w)} {p}: {t!r}")
+                else:
+                    fl, ferr = framed[t]
+                    if ferr or len(fl) != 1:
+                        out.fail("encoded-message-is-not-exactly-one-frame-for-the-stdio-reader", f"{wname(w)} {p}: reader produced {len(fl)} frame(s) ({ferr}) from {t[:200]!r}")
                 for di, d in enumerate(ws):
                     status, got = dec[di][texts[t]]
                     if status != "ok":
